@@ -11,7 +11,8 @@ RULE = ("Cases = (bit width b in {1,2,4,8,16,32}, length n covering every residu
         "position (int, Python or numpy), position list/array with repeats, window size 1..64/b).  Oracle = the unpacked "
         "Python list: unpack() == a; p[i] == a[i]; p[list].unpack() == a[list]; sliding_window(w)[i] == sum(a[i+j] << (b*j)) "
         "for every i in 0..n-w and no entries when n < w.  Non-trivial = n is not a multiple of 64/b, or a window straddles a "
-        "64-bit register boundary.")
+        "64-bit register boundary."
+        "  b and w as Python ints or numpy int64 / intp scalars; the packed input must be unchanged by pack and is overwritten by the caller afterwards, as is every array a read returned.")
 ASSUMPTIONS = ["negative positions are refused by the library (OverflowError) and are not part of the property",
                "b and w are Python ints (the documented parameter type) or numpy's 64-bit signed scalars (int64 / intp), which behave like "
                "Python ints at these magnitudes; narrower numpy scalars (uint8(16), int32(32)) make 2**b wrap in the caller's own type "
